@@ -147,7 +147,7 @@ Definition stmt_site (s : stmt) : option (site * vexpr) :=
               flat_map pp_stmt body; pp_push p], 0), e)
   | STuple e binders body =>
       Some ((SCall, "# [ allow ( unreachable_patterns ) ] match & ( $0 ) { ( $1 ) => { $2 } , _ => unreachable ! ( $3 ) , }",
-             [pp_vexpr e; sep_by (comma SCall) (map (pp_binder NTupleElem) binders); flat_map pp_stmt body;
+             [pp_vexpr e; term_by (comma SCall) (map (pp_binder NTupleElem) binders); flat_map pp_stmt body;
               str_lit "Plain tuple match should always succeed" SCall], 0), e)
   | SRange sp e r _ p => Some ((sp, "match & ( $0 ) { $1 => { } , _ => { $2 } }", [pp_vexpr e; r; pp_push p], 0), e)
   | SSlice e parts body p =>
